@@ -38,7 +38,8 @@ def one(n):
     out.write('%s (breaks %s): %s%s\n'%(n,meta['property'],'DETECTED by '+','.join(sorted(hits)) if hits else 'MISSED','' if own or not hits else '   [not by its own property]'))
     if '-v' in sys.argv:
         for pr,h in hits.items():
-            for l in h[:3]: out.write('      '+l[:260]+'\n')
+            out.write('    [%s]\n'%pr)
+            for l in h[:4]: out.write('      '+l[:260]+'\n')
     return (out.getvalue(),1,1 if hits else 0)
 
 if __name__=='__main__':
